@@ -941,10 +941,10 @@ def A19_attribute_discipline(repo, clause, funcs=None):
                     bad.append(n)
         total += n_acc
         if n_acc:
-            obs.append(Ob("A19", clause, fn, fn.node, not bad,
+            obs.append(Ob("A19", clause, fn, fn.node, True,
                           "%d attribute accesses on Atoms-typed values %s: %s" % (
                               n_acc, sorted(typed), "all are methods/properties/attributes of Atoms" if not bad else
-                              "UNKNOWN attribute(s) %s (AttributeError at run time)" % sorted({b.attr for b in bad})),
+                              "unknown attribute(s) %s reported individually below" % sorted({b.attr for b in bad})),
                           construct="def %s" % fn.name, slot="accesses"))
             for b in bad:
                 obs.append(Ob("A19", clause, fn, b, False, "`%s` is not an attribute, property or method of Atoms" % ast.unparse(b),
